@@ -274,7 +274,7 @@ def main(ctx):
     cases = []
     langs = ('C', 'CPP', 'JAVA', 'CS', 'D', 'PAWN')
     files = [f for f in corpus.files() if f[1] in langs and os.path.getsize(os.path.join(corpus.input_root(), f[0])) < 8000]
-    n = 1200 if quick else 40000
+    n = 2500 if quick else 40000
     for i in range(n):
         rng = random.Random(core.subseed(ctx.useed, 'corpus', i))
         rel, lang = rng.choice(files)
@@ -297,5 +297,5 @@ def main(ctx):
         pos = rng.sample(cand, min(len(cand), rng.randint(1, 3)))
         cases.append(mk_case(base, pos, lang, rng, {'kind': 'corpus-region', 'file': rel}, (0, 0.02, 0.05)[i % 3]))
     raw = family.explore(ctx, judge, cases)
-    raw += family.hyp_explore(ctx, judge, make_strategy, to_case, shards=16, examples=(120 if quick else 4000))
+    raw += family.hyp_explore(ctx, judge, make_strategy, to_case, shards=16, examples=(250 if quick else 4000))
     family.triage(ctx, judge, raw, minimise_src=False)
